@@ -1447,6 +1447,9 @@ class GeoboxTiles:
         else:
             poly = query
 
+        if poly.is_empty:
+            return
+
         if target_crs is not None and poly.crs != target_crs:
             poly = poly.to_crs(target_crs, check_and_fix=True)
 
